@@ -116,6 +116,13 @@ def execute(scn, sb):
             # the fault index lay beyond the end of the build: the process finished normally
             for (cls, text) in sc.judge_outputs(g.outputs[0], g.vp[0], [job], "un-killed process"):
                 violations.append(["unkilled-" + cls, text])
+    if scn.get("edit_after") and job.kind == "file":
+        # the header is edited between the crash and the follow-up builds: whatever the crash left behind
+        # was produced from the old header and must not pass for a translation of the new one
+        job = sc.SimpleJob(job.kind, job.mul + 3, job.add, job.fname)
+        for name, text in job.files().items():
+            sb.write_proj(name, text)
+        spec = {"mode": scn["mode"], "jobs": [job.spec()]}
     state_after_crash = hashlib.sha256(json.dumps(sb.tree_state()).encode()).hexdigest()[:12]
     # phase 2, 3: follow-up builders, fault free
     trusted = []
@@ -134,8 +141,8 @@ def execute(scn, sb):
         "log_hash": ps.log_hash(full),
         "steps": steps, "sim_ns": steps * 10 ** 6,
         "nontrivial": killed_any,
-        "distinct_key": "%s/%s/%s/%s" % (scn["mode"], scn["job"]["kind"], scn["pre"],
-                                         ";".join("%s@%d" % (f["kind"], f["step"]) for fl in crashers for f in fl)),
+        "distinct_key": "%s/%s/%s%s/%s" % (scn["mode"], scn["job"]["kind"], scn["pre"], "+edit" if scn.get("edit_after") else "",
+                                           ";".join("%s@%d" % (f["kind"], f["step"]) for fl in crashers for f in fl)),
         "faults": faults_fired,
         "probes": {"kill_in_write_window": 1 if any(" 1 " in l and ("KILLED" in l or "TORN" in l) for l in logs[0]) else 0,
                    "kill_inside_compiler_output": 1 if any("binary" in d and d.startswith("write") for d in fault_desc) else 0},
@@ -155,12 +162,18 @@ def signature(scn, out):
     v = out["violations"][0]
     msg = sc.normalise_msg(v[1].split(": ", 1)[-1]) if "exception" in v[0] else ""
     kinds = "+".join(f["kind"] for fl in [scn["faults"]] + ([scn["second_crash"]] if scn.get("second_crash") else []) for f in fl)
-    return "%s|%s|%s|%s@%s" % (PROP, v[0], msg, kinds, " & ".join(out.get("fault_desc", [])).replace(" ", "_"))
+    return "%s|%s|%s|%s@%s%s" % (PROP, v[0], msg, kinds, " & ".join(out.get("fault_desc", [])).replace(" ", "_"),
+                                 "|header-edited-after-crash" if scn.get("edit_after") and scn["job"]["kind"] == "file" else "")
 
 
 def minimise(ex, scn, out, cls):
     # one fault is already minimal; try to simplify torn -> killafter and drop the second crash
     cur = scn
+    if cur.get("edit_after"):
+        cand = dict(cur, edit_after=False)
+        o = ex.run1(cand)
+        if cls in [v[0] for v in o.get("violations", [])]:
+            cur, out = cand, o
     if cur.get("second_crash"):
         cand = dict(cur, second_crash=None)
         o = ex.run1(cand)
@@ -204,6 +217,8 @@ def main(tier):
                     if kind == "torn":
                         f["permille"] = r.choice([0, 1, 250, 500, 900, 999])
                     l.append(dict(s, faults=[f]))
+                    if s["job"]["kind"] == "file" and kind != "torn":
+                        l.append(dict(s, faults=[f], edit_after=True))
             lists.append(l)
         i = 0
         while any(lists):
@@ -224,6 +239,8 @@ def main(tier):
             if f["kind"] == "torn":
                 f["permille"] = r.choice([0, 1, 250, 500, 900, 999])
             scn = dict(s, faults=[f])
+            if s["job"]["kind"] == "file" and r.random() < 0.35:
+                scn["edit_after"] = True
             if r.random() < 0.15:
                 scn["second_crash"] = [{"step": r.randrange(len(pts)), "kind": r.choice(["killbefore", "killafter"])}]
             yield scn
@@ -253,7 +270,8 @@ def main(tier):
             ex.pool.run(pscheck._exec_task, ((execute, s) for s in _double(tasks_quick())), deadline, on_result)
     ex.report.rule = ("one run = (scenario class: mode x string/file kernel x cold / vendor-probe-warm / rebuild-after-header-edit cache"
                       " x compiler output chunking) x (kill point k among the builder's file-system system calls) x (kill before the "
-                      "call | kill after it | torn write then kill), followed by two fault-free builders on the same cache; "
+                      "call | kill after it | torn write then kill) x (file kernels: the included header is or is not edited after the crash), "
+                      "followed by two fault-free builders on the same cache; "
                       "non-trivial = the fault actually fired (builder killed); distinct = (class, k, kind)")
     ex.report.assumptions = [
         "a crash is SIGKILL of the building process and all its children: completed system calls persist (no power-loss model)",
